@@ -44,6 +44,11 @@ T = [
  ("C03-B", "C12", "C12.R2", "Wrap hands unread bytes on"),
  ("C17-A", "C17", "C17.R3", "total limiter dropped when the local one is stricter"),
  ("C17-B", "C17", "C17.R1", "underlying read not clamped to the batch"),
+ ("C16-A", "C16", "C16.R2", "authenticator chosen from the filtered credential map"),
+ ("C16-B", "C16", "C16.R1", "default commands chosen from the filtered command list"),
+ ("C18-A", "C18", "C18.R1", "crypt2 parser locates the wrapped key from the tail and drops stray bytes"),
+ ("fixrev-db39786", "C18", "C18.R1", "rdp fixed-size parsers accept over-long input"),
+ ("fixrev-496153b", "C18", "C18.R1", "wireguard initiation parser accepts over-long input"),
  ("C05-A", "C05", "C05.R2", "deadline armed once only; not re-armed after a matched non-terminal route"),
  ("C05-B", "C05", "C05.R5", "buffer limit measured from the cursor"),
  ("fixrev-396f23a", "C05", "C05.R2", "fallback of an empty route list runs with the deadline armed"),
